@@ -1,13 +1,13 @@
 SPECIFICATION MCSpec
 CONSTANTS
   Relax = {}
-  Mode = "honest"
-  MaxBlocks = 3
+  Mode = "revoked"
+  MaxBlocks = 2
   Layouts = {"plain"}
-  MaxUnwind = 0
+  MaxUnwind = 1
   Features = {}
-  Defect = "none"
-  MaxReload = 1
+  Defect = "no_reissue"
+  MaxReload = 0
 CONSTRAINT Bounded
 VIEW View
 INVARIANT TypeOK
